@@ -117,8 +117,14 @@ def lcViolations (h : List Obs) : List (Nat × String) :=
   ++ h.filterMap (fun r => (panicViolation r).map (r.line, ·))
 
 /-- ResourceManager: `serr` = scripted failure of `create`; a successful `create` returns the call's id as instance. -/
-def rmCallViolation (h : List Obs) (r : Obs) : Option String :=
+def rmCallViolation (inj : List (Nat × Nat)) (h : List Obs) (r : Obs) : Option String :=
   let created := h.filter fun c => c.key = r.key && c.ran && !c.serr
+  match inj.lookup r.key with
+  | some n =>
+    -- the key was pre-registered with instance `n` (Inject before any call): everyone gets that one, create never runs
+    if r.val = some n && r.err.isNone && !r.ran then none
+    else some s!"rm-same-instance: key {r.key} is registered with instance {n} but call {r.id} got val={r.val} err={r.err} after {r.runs} create call(s)"
+  | none =>
   match r.val, r.err with
   | some v, none =>
     if created.any (·.id = v) then none
@@ -139,10 +145,10 @@ def rmKeyViolations (h : List Obs) : List (Nat × String) :=
       | none => none
     else none
 
-def rmViolations (h : List Obs) : List (Nat × String) :=
+def rmViolations (inj : List (Nat × Nat)) (h : List Obs) : List (Nat × String) :=
   exclusiveViolations h
   ++ rmKeyViolations h
-  ++ h.filterMap (fun r => (rmCallViolation h r).map (r.line, ·))
+  ++ h.filterMap (fun r => (rmCallViolation inj h r).map (r.line, ·))
   ++ h.filterMap (fun r => if r.runs > 1 then some (r.line, s!"rm: create of call {r.id} executed {r.runs} times") else none)
   ++ h.filterMap (fun r => (stuckViolation r).map (r.line, ·))
   ++ h.filterMap (fun r => (panicViolation r).map (r.line, ·))
